@@ -154,15 +154,236 @@ ex.extra_models.update(c2_saved)
 if restored == 0:
     ck.inconclusive.append('C2 vacuous: BlobLog restore never returned')
 
+
+# ------------------------------------------------------------------ C3: clear() leaves nothing of the old contents behind
+# A rollback reuses the live slabs after SlabRouter::clear.  Each slab's clear() is executed from MIR on an arbitrary slab (every
+# field lazily symbolic, containers 0..1 entries): afterwards every interior-mutable field (RwLock / Mutex / atomic) must hold a
+# value that does not depend on the old contents - an empty container, all-None slots, a constant, or a term over the slab's
+# configuration fields only.  A field clear() never touches, or leaves as it was, still describes data that is gone (a free-slot
+# list pointing into reused storage, a counter, a reverse map).
+import re as _re
+CLEAR_SLABS = {'EmbeddingSlab': 'embedding_slab.rs', 'EntityIndex': 'entity_index.rs', 'BlobLog': 'blob_log.rs',
+               'CacheRing': 'cache_ring.rs', 'RelationalSlab': 'relational_slab.rs'}
+# raw storage that is reachable only through the fields below it (slots are handed out by index / free list / write position)
+RAW_STORAGE = {('EmbeddingSlab', 'chunks')}
+# kept on purpose or harmlessly: a counter that is only ever incremented and never read for a decision
+KEPT_HARMLESS = {('RelationalSlab', 'next_table_id')}
+ck.declare('C3_clear_leaves_nothing_behind', f'clear() of {sorted(CLEAR_SLABS)} on an arbitrary slab (containers 0..1 entries); GraphTensor::clear (CsrGraph default) and MetadataSlab::clear (16 shards: path count) not encoded',
+           'every interior-mutable field except raw storage is reset to a value independent of the old contents')
+ck.assumptions.append('C3: EmbeddingSlab.chunks is raw storage addressed only through index, free_slots and write_pos; RelationalSlab.next_table_id is only ever incremented and never read, keeping it is harmless; MetadataSlab::clear is outside the claim (16 shards, the path bound is exceeded); GraphTensor::clear is outside the claim (CsrGraph::default uses a bit-vector crate the executor does not model)')
+
+
+def struct_field_types(fname, struct):
+    txt = open(os.path.join(REPO, 'tensor_store', 'src', fname)).read()
+    m = _re.search(r'pub struct ' + struct + r'(?:<[^>]*>)?\s*\{(.*?)\n\}', txt, _re.S)
+    out = {}
+    if m:
+        body = _re.sub(r'//[^\n]*', '', m.group(1))
+        for mm in _re.finditer(r'(?:pub(?:\([^)]*\))?\s+)?(\w+)\s*:\s*([^\n]+?),\s*(?:\n|$)', body):
+            out[mm.group(1)] = mm.group(2)
+    return out
+
+
+def depends_on_old(v, st, allowed):
+    """None when the value is independent of the slab's old contents, else a short description"""
+    if isinstance(v, Struct) and 'data' in v.fields and len(v.fields) == 1:
+        inner = v.fields['data']
+        return depends_on_old(inner.load(0, None, st) if isinstance(inner, Cell) else inner, st, allowed)
+    if isinstance(v, Int) or z3.is_expr(v):
+        t = z3.simplify(v.v if isinstance(v, Int) else v)
+        from z3 import z3util
+        bad = [str(x) for x in z3util.get_vars(t) if str(x) not in allowed]
+        return ('depends on ' + ', '.join(bad[:3])) if bad else None
+    if isinstance(v, Map):
+        return None if len(v.keys) == 0 else f'map with {len(v.keys)} entries'
+    if isinstance(v, Seq):
+        for e in v.items(st):
+            d = depends_on_old(e, st, allowed)
+            if d:
+                return 'element: ' + d
+        return None
+    if isinstance(v, Enum):
+        if v.variant == 'None':
+            return None
+        for fv in v.fields.values():
+            d = depends_on_old(fv, st, allowed)
+            if d:
+                return d
+        return None
+    if isinstance(v, Struct):
+        for fv in v.fields.values():
+            d = depends_on_old(fv, st, allowed)
+            if d:
+                return d
+        return None
+    if isinstance(v, Ptr):
+        return depends_on_old(v.load(st), st, allowed)
+    if v is UNIT or isinstance(v, (bool, Str, Opaque)):
+        return None
+    return 'value of kind ' + type(v).__name__
+
+
+c3_saved = dict(ex.extra_models)
+for k in [k for k in ex.extra_models if k.split('::')[0] in CLEAR_SLABS]:
+    del ex.extra_models[k]
+cleared_paths = 0
+for slab, fname in CLEAR_SLABS.items():
+    ftypes = struct_field_types(fname, slab)
+    order = P.structs.get(slab, [[]])[0]
+    state_fields = [n for n in order if _re.search(r'RwLock<|Mutex<|Atomic', ftypes.get(n, '')) and (slab, n) not in RAW_STORAGE and (slab, n) not in KEPT_HARMLESS]
+    config = {f'SL.{order.index(n)}' for n in order if n not in state_fields}
+    if not state_fields:
+        ck.inconclusive.append(f'C3: no interior-mutable fields found for {slab} (struct parse failed)')
+        continue
+    st = ex.new_state()
+    obj = Struct(slab, {}, lazy='SL')
+    st.roots['sl'] = obj
+    st.frames = []
+    ex.call(st, slab + '::clear', [ref(obj)])
+    res = ex.run(st)
+    ck.note_path_problem(res, f'{slab}::clear')
+    for r in res:
+        if r.status == 'panic':
+            ck.require(ex, 'C3_clear_leaves_nothing_behind', r.pc, None, z3.BoolVal(False), lambda m, slab=slab: {'op': 'slab_clear', 'slab': slab, 'panic': True}, lambda m, w: 'clear-panic')
+            continue
+        if r.status != 'return':
+            continue
+        cleared_paths += 1
+        o = r.st.roots['sl']
+        left = {}
+        for n in state_fields:
+            i = order.index(n)
+            if i not in o.fields:
+                left[n] = 'never touched'
+                continue
+            d = depends_on_old(o.fields[i], r.st, config)
+            if d:
+                left[n] = d
+        ck.require(ex, 'C3_clear_leaves_nothing_behind', r.pc, None, z3.BoolVal(not left),
+                   lambda m, slab=slab, left=left: {'op': 'slab_clear', 'slab': slab, 'fields_left': left}, lambda m, w: 'clear-leaves:' + w['slab'] + ':' + ','.join(sorted(w['fields_left'])))
+    ck.notes.append(f'{slab}::clear: state fields {state_fields}')
+ex.extra_models.clear()
+ex.extra_models.update(c3_saved)
+if cleared_paths == 0:
+    ck.inconclusive.append('C3 vacuous: no clear() returned')
+
+# ------------------------------------------------------------------ C4: retention deletes exactly the oldest surplus checkpoints
+# RetentionManager::enforce is an async fn whose awaits are on CheckpointStorage::list / delete.  Its poll function is executed from
+# tensor_checkpoint's MIR with both replaced by stubs that complete at the first poll: list yields n entries in the order the real one
+# documents (newest first) or an error; delete records the artifact id it is given and succeeds or fails.  The limit is symbolic.
+exr = ck.executor('tensor_checkpoint', unroll=12, default_maxlen=1)
+PR = exr.prog
+FI = lambda n: PR.field('CheckpointInfo', n)
+N_CP = (0, 1, 2, 3) if T == 'quick' else (0, 1, 2, 3, 4, 5)
+ck.bounds['retention'] = f'{list(N_CP)} checkpoints listed, limit symbolic (64-bit), every delete succeeds or fails independently'
+ck.declare('C4_retention_deletes_exactly_the_oldest_surplus', f'RetentionManager::enforce on {list(N_CP)} listed checkpoints (newest first), limit symbolic',
+           'delete is asked for the artifact of every entry beyond the limit and of no entry within it (never by another handle); the result counts the successful deletes; a failed listing deletes nothing')
+ck.declare('C4_list_orders_newest_first', 'the comparator CheckpointStorage::list sorts with, two arbitrary entries', 'Less exactly when the first entry is newer (created_at greater), Equal on equal times')
+
+
+def cp_info(i):
+    return Struct('CheckpointInfo', {FI('id'): Str(z3.BitVec(f'cid{i}', 64)), FI('name'): Str(z3.BitVec(f'cname{i}', 64)), FI('created_at'): Int(z3.BitVec(f'cat{i}', 64), False),
+                                     FI('artifact_id'): Str(z3.BitVec(f'art{i}', 64)), FI('size'): Int(z3.BitVec(f'csz{i}', 64), False), FI('trigger'): none('Option<String>')})
+
+
+def ov_list(c):
+    if c.st.choose(2, 'list ok/err') == 1:
+        c.st.notes.append(('list_failed',))
+        return Struct('ReadyFuture', {0: _err(Opaque('CheckpointError'), 'Result<Vec<CheckpointInfo>, CheckpointError>')})
+    return Struct('ReadyFuture', {0: _ok(Seq('CheckpointInfo', [cp_info(i) for i in range(c.st.env['n_cp'])]), 'Result<Vec<CheckpointInfo>, CheckpointError>')})
+
+
+def ov_cp_delete(c):
+    a = deref(c.st, c.args[0])
+    good = c.st.choose(2, 'delete ok/err') == 0
+    c.st.notes.append(('cp_delete', a, good))
+    return Struct('ReadyFuture', {0: _ok(UNIT, 'Result<(), CheckpointError>') if good else _err(Opaque('CheckpointError'), 'Result<(), CheckpointError>')})
+
+
+exr.extra_models.update({'CheckpointStorage::list': ov_list, 'CheckpointStorage::delete': ov_cp_delete})
+enforced = 0
+for n in N_CP:
+    st = exr.new_state()
+    st.env['n_cp'] = n
+    LIM = z3.BitVec('max_checkpoints', 64)
+    arts = [z3.BitVec(f'art{i}', 64) for i in range(n)]
+    others = [z3.BitVec(f'{p_}{i}', 64) for i in range(n) for p_ in ('cid', 'cname')]
+    st.assume(z3.Distinct(*(arts + others)) if len(arts + others) > 1 else z3.BoolVal(True))      # an artifact id is not also a name or id
+    rm = Struct('RetentionManager', {0: Int(LIM, False)})
+    body = Struct('{async fn body of RetentionManager::enforce()}', {0: ref(rm), 1: ref(Opaque('BlobStore')), '__state': 0})
+    st.frames = []
+    exr.call(st, 'RetentionManager::enforce::{closure#0}', [Struct('Pin', {0: ref(body)}), ref(Opaque('Context'))])
+    res = exr.run(st)
+    ck.note_path_problem(res, f'RetentionManager::enforce n={n}')
+    for r in res:
+        dels = [(x[1], x[2]) for x in r.st.notes if x[0] == 'cp_delete']
+        wit = lambda m, n=n, dels=dels: {'op': 'retention', 'n': n, 'max': mval(m, LIM), 'deleted_handles': [str(d.id) if getattr(d, 'id', None) is not None else repr(d) for d, _ in dels]}
+        if r.status == 'panic':
+            ck.require(exr, 'C4_retention_deletes_exactly_the_oldest_surplus', r.pc, None, z3.BoolVal(False), wit, lambda m, w: 'retention-panic')
+            continue
+        if r.status != 'return':
+            continue
+        rv = r.retval
+        if isinstance(rv, Struct) and 0 in rv.fields:          # Poll::Ready(x) built as an aggregate
+            out = rv.fields[0]
+        elif isinstance(rv, Enum) and rv.variant == 'Ready':
+            out = rv.fields[('Ready', 0)]
+        else:
+            ck.inconclusive.append('enforce suspended although every await was a ready stub')
+            continue
+        enforced += 1
+        if any(x[0] == 'list_failed' for x in r.st.notes):
+            ck.require(exr, 'C4_retention_deletes_exactly_the_oldest_surplus', r.pc, None, z3.BoolVal(out.variant == 'Err' and not dels), wit, lambda m, w: 'retention-after-failed-list')
+            continue
+        cs = [z3.BoolVal(out.variant == 'Ok')]
+        if out.variant == 'Ok':
+            cs.append(out.fields[('Ok', 0)].v == z3.BitVecVal(sum(1 for _, g in dels if g), 64))
+        for d, _ in dels:
+            # the handle given to delete is the artifact id of a listed entry beyond the limit
+            cs.append(z3.Or([z3.And(d.id == arts[i], z3.ULE(LIM, z3.BitVecVal(i, 64))) for i in range(n)] + [z3.BoolVal(False)]) if isinstance(d, Str) and d.id is not None else z3.BoolVal(False))
+        for i in range(n):
+            asked = z3.Or([d.id == arts[i] for d, _ in dels if isinstance(d, Str) and d.id is not None] + [z3.BoolVal(False)])
+            cs.append(z3.Implies(z3.ULE(LIM, z3.BitVecVal(i, 64)), asked))
+        ck.require(exr, 'C4_retention_deletes_exactly_the_oldest_surplus', r.pc, None, z3.And(cs), wit, lambda m, w: 'retention-wrong-victims')
+if enforced == 0:
+    ck.inconclusive.append('C4 vacuous: enforce never completed')
+# the comparator of the sort in CheckpointStorage::list
+st = exr.new_state()
+a_, b_ = cp_info(0), cp_info(1)
+cmp_fn = [f.canon for f in PR.fns if f.canon.startswith('CheckpointStorage::list::{closure#0}::{closure#') and len(f.params) == 3]
+if len(cmp_fn) != 1:
+    ck.inconclusive.append(f'C4: comparator closure of CheckpointStorage::list not identified ({cmp_fn})')
+else:
+    st.frames = []
+    exr.call(st, cmp_fn[0], [ref(Struct('closure', {})), ref(a_), ref(b_)])
+    res = exr.run(st)
+    ck.note_path_problem(res, 'list comparator')
+    ca, cb = z3.BitVec('cat0', 64), z3.BitVec('cat1', 64)
+    for r in res:
+        wit = lambda m: {'op': 'retention_order', 'created_at': [mval(m, ca), mval(m, cb)]}
+        if r.status != 'return':
+            if r.status == 'panic':
+                ck.require(exr, 'C4_list_orders_newest_first', r.pc, None, z3.BoolVal(False), wit, lambda m, w: 'list-order-panic')
+            continue
+        d = r.retval.disc if isinstance(r.retval, Enum) else None
+        d = z3.BitVecVal(d, 64) if isinstance(d, int) else d
+        want = z3.If(z3.UGT(ca, cb), z3.BitVecVal(-1, 64), z3.If(ca == cb, z3.BitVecVal(0, 64), z3.BitVecVal(1, 64)))
+        ck.require(exr, 'C4_list_orders_newest_first', r.pc, None, (z3.SignExt(64 - d.size(), d) if d.size() < 64 else d) == want, wit, lambda m, w: 'list-order')
+
 for v in ck.violations:
     if v['witness'].get('op') == 'blob_restore':
         rep = Replay.call({**v['witness'], 'op': 'blob_log_restore'})
         v['native'] = rep
         v['replayed'] = rep.get('violates')
         continue
+    if v['witness'].get('op') in ('slab_clear', 'retention', 'retention_order'):
+        rep = Replay.call({**v['witness'], 'op': {'slab_clear': 'store_clear_reuse', 'retention': 'retention_enforce', 'retention_order': 'retention_enforce'}[v['witness']['op']]})
+        v['native'] = rep
+        v['replayed'] = rep.get('violates')
+        continue
     rep = Replay.call({'op': 'store_rollback', 'slabs': v['witness'].get('slabs_not_refilled', [])})
     v['native'] = rep
     v['replayed'] = rep.get('violates')
-ck.functions += ['BlobLog::restore_from', 'BlobLog::restore', 'TensorStore::restore_from_bytes', 'SlabRouter::clear', 'SlabRouter::scan', 'SlabRouter::get', 'SlabRouter::put']
+ck.functions += [s_ + '::clear' for s_ in CLEAR_SLABS] + ['RetentionManager::enforce::{closure#0}', 'CheckpointStorage::list::{closure#0}::{closure#1}', 'BlobLog::restore_from', 'BlobLog::restore', 'TensorStore::restore_from_bytes', 'SlabRouter::clear', 'SlabRouter::scan', 'SlabRouter::get', 'SlabRouter::put']
 if __name__ == '__main__':
     ck.finish()
